@@ -52,7 +52,26 @@ CLAIM = {
             'only, shapes with axes 0/1, sizes and positions 2^p+-1, 2^31/2^32) by correspondence/oracle; R6 - '
             'oracle/correspondence only (time axis rescaled by 1e-12..1e12, tolerances relative to the phase); '
             'R7 - theorem history_equiv_fresh + life-cycle oracle (fresh generator with replayed phases, '
-            'copy/deepcopy, get_similar_fading_generator, RandomState shared by two generators). L = 0 '
+            'copy/deepcopy, get_similar_fading_generator, RandomState shared by two generators). Second round: '
+            'R8 (argument forms) - theorems default_forms_agree / constructor_vs_setter + correspondence/oracles '
+            'with every call positional / keyword / explicit None / explicit default, constructor positional / '
+            'keyword / shuffled / defaults omitted / RS omitted (global generator), constructor-vs-setter oracle '
+            'with replayed draws, generator vs free function generate_jakes_samples (all call forms, default '
+            'phases, documented defaults), get_similar forwarding; R9 (counts) - theorem request_value_only + '
+            'every numpy integer name (intp, longlong, short, intc, byte and unsigned twins), values > 256, range '
+            'crossings, by correspondence and oracle; R10 (heterogeneous) - shapes whose elements differ in type, '
+            'phi/psi of the free function differing in dtype / container (float32 next to float64, int16, lists, '
+            'nested mixed rows), correspondence/oracle only; R11 (non-mutating API) - model op `query` + theorem '
+            'queries_invisible, driver token q, 16 queries (get_samples, properties, repr/str, ==, hash, dir, vars, '
+            'copy, deepcopy, pickle, similar; derived objects are also used) inside histories, unchanged '
+            'observables and canonical twin without the queries; R12 (container order) does not apply: the API '
+            'has no dict / set / named container, only keyword order of the constructor (shuffled under R8); R13 '
+            '(derived objects) - theorem derived_copy_replays_history + fork correspondence (copy / deepcopy / '
+            'pickle inside a history, parent and child continued interleaved) and oracle against never-related '
+            'twins incl. similar generator, second round trip of the child, default-RS generators; R14 (count '
+            'scale) - L = 257 / 258 / 300 / 65537 rays, 257 / 258 / 300 / 65537 entries, 12-dimensional shape, '
+            'by correspondence/oracle (the model is unbounded). An exception escaping an oracle is a failing input '
+            '(exit 1), a harness exception in the correspondence a broken tie (exit 1), never exit 2. L = 0 '
             '(ZeroDivisionError, modelled) is outside the property quantifier.'}
 
 TWO_PI = 2.0 * math.pi
@@ -300,7 +319,9 @@ def do_query(g, name, use_child=True):
         if use_child:
             child.generate_more_samples(3)
             child.skip_samples_for_next_generation(2)
-            if name != 'copy':          # a shallow copy documents nothing about the shared RandomState
+            # a shallow copy shares the parent's RandomState, and every generator without an explicit RS
+            # shares numpy's global one: drawing new phases there is visible to the parent by design
+            if name != 'copy' and getattr(child, 'RS', None) is not np.random:
                 child.shape = 2
                 child.generate_more_samples(2)
 
@@ -1029,7 +1050,7 @@ def o_derived(case):
     try:
         pre, par, chi = case['ops'], case['parent'], case['child']
         kpre = 1 + sum(size_value(o[1])[1] for o in pre if o[0] in 'gs')
-        reg = 'how=%s:%s' % (how, regime(kpre, 1))
+        reg = 'how=%s%s:%s' % (how, ',default-RS' if case.get('ctor') == 'global-rs' else '', regime(kpre, 1))
         g = make_gen(case)
         run(g, pre, [])
         child = derive(g, how)
@@ -1069,7 +1090,7 @@ def o_derived(case):
         if again.shape != tc.shape or not np.array_equal(again.get_samples(), tc.get_samples()):
             return 'child-round-trip:' + reg, 'pickle round trip of the child does not continue like the child'
     except Exception as e:
-        return 'exception:%s:derived:how=%s' % (type(e).__name__, how), repr(e)[:300]
+        return 'exception:%s:derived:how=%s%s' % (type(e).__name__, how, ',default-RS' if case.get('ctor') == 'global-rs' else ''), repr(e)[:300]
     return None
 
 
@@ -1268,8 +1289,7 @@ def o_function(case):
     ref = ref_values(Fd, Ts, phi, psi, k0 + js)
     # the function's time origin is the float ct = fl(k0*Ts): one more rounding of the time
     tol = 2 * tol_for(L, Fd, (k0 + N) * Ts)
-    if mode == 'float32' or case.get('arr_psi') == 'float32':
-        tol += 2 * math.sqrt(L) * float(np.finfo(np.float32).eps) * (TWO_PI * abs(Fd) * (k0 + N) * Ts + TWO_PI)
+    # (float32 / integer phases are exactly representable in binary64: no extra tolerance)
     err = float(np.max(np.abs(h[..., js] - ref))) if h.size else 0.0
     if not err <= tol:
         return 'value:' + reg, 'differs from the Jakes sum by %.3g (tol %.3g)' % (err, tol)
@@ -1696,6 +1716,8 @@ def query_case(rng, case):
         ops.append(op)
     ops.append(['Q', rng.choice(names)])
     ops.append(['g', rng.randint(1, 4)])
+    if case.get('ctor') == 'global-rs':     # building a similar generator draws from the shared global generator
+        ops = [o for o in ops if not (o[0] == 'Q' and o[1] == 'similar')]
     out = dict(case, ops=ops)
     if isinstance(out['seed'], dict):
         out['seed'] = rng.below(1 << 31)
@@ -1725,10 +1747,22 @@ def light_ops(rng, n, with_shape):
     return ops
 
 
-def derived_case(rng, how=None):
-    """R13: parent history, a derived object, then both are used and reconfigured"""
+def derived_case(rng, how=None, default_rs=False):
+    """R13: parent history, a derived object, then both are used and reconfigured; default_rs: the
+    generator is built without an RS argument (numpy's global generator, which parent and child share,
+    so no shape is assigned after the fork)"""
     how = how or rng.choice(['copy', 'deepcopy', 'pickle', 'similar'])
     cfg = gen_config(rng)
+    if default_rs:
+        cfg['ctor'] = 'global-rs'
+        cfg['seed'] = rng.below(1 << 31)
+        cfg['L'] = min(cfg['L'], 8)
+        cfg['ops'] = light_ops(rng, rng.randint(0, 4), True)
+        cfg.update({'how': how, 'parent': light_ops(rng, rng.randint(1, 4), False) + [['g', 2]],
+                    'child': light_ops(rng, rng.randint(1, 4), False) + [['g', 3]]})
+        for key in ('ops', 'parent', 'child'):      # no derived generators inside (they draw from the global RS too)
+            cfg[key] = [o for o in cfg[key] if not (o[0] == 'Q' and o[1] == 'similar')]
+        return cfg
     if isinstance(cfg['seed'], dict):
         cfg['seed'] = rng.below(1 << 31)
     cfg['L'] = min(cfg['L'], 8)
@@ -1739,9 +1773,9 @@ def derived_case(rng, how=None):
     return cfg
 
 
-def fork_case(rng, how):
+def fork_case(rng, how, default_rs=False):
     """the same for the correspondence: a fork inside one history"""
-    cfg = derived_case(rng, how)
+    cfg = derived_case(rng, how, default_rs)
     pre = cfg.pop('ops')
     par = cfg.pop('parent')
     cfg['ops'] = pre + par
@@ -2076,6 +2110,8 @@ def correspondence(ctx, cases):
                 cm = re.sub(r'(\d)/\d+/(\d+)/(\d+)', r'\1/?/\2/\3', cm)
             ctx.corr('history.derived-object', c, ci, cm, key=('fork', repr(c['fork']), repr(c['ops'])))
             ctx.branch('corr:R13-derived-' + c['fork']['how'])
+            if c.get('ctor') == 'global-rs':
+                ctx.branch('corr:R13-derived-from-default-RS-generator')
         if not have_hook:
             # no time hook: the first-sample number is not observable; compare the rest
             ctx.branch('time-hook-missing')
@@ -2258,6 +2294,7 @@ ROBUST2_BRANCHES = [w + b for w in ('corr', 'oracle') for b in (
     + [':R9-count-type:' + t for t in EXTRA_INT] + [':R11-query:' + q for q in QUERIES])] + [
     'corr:R13-derived-copy', 'corr:R13-derived-deepcopy', 'corr:R13-derived-pickle',
     'oracle:R13-derived:copy', 'oracle:R13-derived:deepcopy', 'oracle:R13-derived:pickle', 'oracle:R13-derived:similar',
+    'oracle:R13-derived-from-default-RS-generator', 'corr:R13-derived-from-default-RS-generator',
     'oracle:R8-ctor-vs-setter', 'oracle:R8-wrapper-equivalence', 'oracle:R8-function-call-forms',
     'oracle:R10-function-heterogeneous-inputs']
 
@@ -2288,6 +2325,9 @@ def robustness2_campaign(ctx, robust2, n):
     for i in range(max(n, 4)):
         run_oracle(ctx, 'generate_more_samples.derived', derived_case(ctx.rng, hows[i % 4]))
         ctx.branch('oracle:R13-derived:' + hows[i % 4])
+    for i in range(max(n // 4, 6)):
+        run_oracle(ctx, 'generate_more_samples.derived', derived_case(ctx.rng, hows[i % 3], default_rs=True))
+        ctx.branch('oracle:R13-derived-from-default-RS-generator')
     combos = [('float32', 'C'), ('C', 'float32'), ('list', 'F'), ('strided', 'list'), ('int', 'C'), ('C', 'int'),
               ('nested', 'float32'), ('float32', 'nested'), ('int', 'list'), ('readonly', 'nested')]
     for i in range(max(n, len(combos))):
@@ -2396,6 +2436,8 @@ def check(ctx):
     robust2 = robustness2_cases(ctx.rng, 25 if quick else 400, quick)
     cases += [c for _, c in robust2]
     cases += [fork_case(ctx.rng, how) for how in ('copy', 'deepcopy', 'pickle') for _ in range(6 if quick else 100)]
+    cases += [fork_case(ctx.rng, how, default_rs=True) for how in ('copy', 'deepcopy', 'pickle')
+              for _ in range(2 if quick else 30)]
     try:
         correspondence(ctx, cases)
         rejection_correspondence(ctx)
